@@ -15,6 +15,7 @@ RULE = (
     "initialize flags off before it is checked. "
     'One run in three uses simulate(unit_time=2 or 3): absence lists are then in time units, every level is still charged once per step. '
     'One run in four is written to JSON, read into a new project and the whole accounting is checked again there. '
+    'One run in five is a backward_simulate (state-based clauses on the mirrored result). '
     "Non-trivial = at least two resources with different non-zero rates of which one is logged "
     "WORKING at a step where another one is idle or absent; distinct by canonical spec hash."
 )
